@@ -108,6 +108,10 @@ type sPlan struct {
 	N       int      `json:"n"`
 	T       int      `json:"t"`
 	Batches []sBatch `json:"batches"`
+	// Prelude: before anything else the tasks of the first batch are proposed and signed once in the EARLIER round that
+	// the same nodes and machines hold (other participant ids, other key): whatever a process remembers from that must
+	// not leak into the round under test
+	Prelude bool `json:"prelude,omitempty"`
 }
 
 // refMsg is one entry of the independent reference expansion of a proposal.
@@ -174,6 +178,7 @@ type batchObs struct {
 	Partials map[int]requests.SigningProposalBatchPartialSignRequests // participant -> what its machine returned
 	Answered map[int]bool
 	Proposed bool
+	GroupKey []byte // set for a batch signed in another round than the fixture's main one
 }
 
 type sigObs struct {
@@ -182,11 +187,29 @@ type sigObs struct {
 	GroupKey  []byte
 	SharePubs [][]byte
 	Batches   []*batchObs
+	Prelude   *batchObs
 	Board     []storage.Message
 	NodeSigs  []sigrepo.SignaturesStorage
 	States    []string
 	Logs      [][]string
 	Err       error // harness-level trouble (API error on an honest action etc.)
+}
+
+// fixtureGroupKey returns the group key of one of the fixture's rounds.
+func fixtureGroupKey(fx *world.Fixture, round string) ([]byte, error) {
+	ms, err := fx.SharedMachines()
+	if err != nil {
+		return nil, err
+	}
+	ks, err := ms[0].M.GetBLSKeyrings()
+	if err != nil {
+		return nil, err
+	}
+	kr := ks[round]
+	if kr == nil {
+		return nil, fmt.Errorf("machine 0 has no keyring for round %s", round)
+	}
+	return kr.PubPoly.Commit().MarshalBinary()
 }
 
 // fixtureKeys returns the group key and the share public keys of a fixture (from its shared machines).
@@ -323,6 +346,41 @@ func runSigningCase(fx *world.Fixture, p sPlan, root string) *sigObs {
 	if obs.Err != nil {
 		return obs
 	}
+	if p.Prelude && len(p.Batches) > 0 && fx.RoundA != "" {
+		pb := sBatch{Proposer: 0, Tasks: p.Batches[0].Tasks}
+		h := sha256.Sum256([]byte(fmt.Sprintf("prelude|%v", pb.Tasks)))
+		bo := &batchObs{BatchID: fmt.Sprintf("prelude-%x", h[:6]), Ref: refExpand(pb.Tasks), Partials: map[int]requests.SigningProposalBatchPartialSignRequests{}, Answered: map[int]bool{}}
+		gk, err := fixtureGroupKey(fx, fx.RoundA)
+		if err != nil {
+			obs.Err = err
+			return obs
+		}
+		bo.GroupKey = gk
+		req := pb.request(bo.BatchID, time.Now())
+		for id, node := range fx.PartsA {
+			if node == 0 {
+				req.ParticipantId = id // node 0's participant id in the earlier round
+			}
+		}
+		bz, _ := json.Marshal(req)
+		w.PostSigned(0, fx.RoundA, "event_signing_start", bz, "")
+		for round := 0; round < 40; round++ {
+			progress := w.PollAll()
+			for _, i := range fx.PartsA {
+				if ok, err := answerSigning(w, i, bo, ""); err != nil {
+					obs.Err = fmt.Errorf("prelude in the earlier round: operator %d: %w", i, err)
+					return obs
+				} else if ok {
+					progress++
+				}
+			}
+			if progress == 0 {
+				break
+			}
+		}
+		bo.Proposed = true
+		obs.Prelude = bo
+	}
 	for bi, b := range p.Batches {
 		bo := &batchObs{Ref: refExpand(b.Tasks), Partials: map[int]requests.SigningProposalBatchPartialSignRequests{}, Answered: map[int]bool{}}
 		obs.Batches = append(obs.Batches, bo)
@@ -450,6 +508,17 @@ func runSigningCase(fx *world.Fixture, p sPlan, root string) *sigObs {
 		if err != nil {
 			obs.Err = err
 			return obs
+		}
+		if obs.Prelude != nil {
+			// the store of the earlier round, merged in (batch identifiers are distinct)
+			if sa, err := w.Signatures(i, fx.RoundA); err == nil {
+				if s == nil {
+					s = sigrepo.SignaturesStorage{}
+				}
+				for b, v := range sa {
+					s[b] = v
+				}
+			}
 		}
 		obs.NodeSigs = append(obs.NodeSigs, s)
 		obs.States = append(obs.States, w.StateOf(i, fx.Round))
